@@ -1,11 +1,24 @@
 /* h_ldperm.c — C17: ?ldperm(job 5) returns a maximum-product matching with unit scaling, leaves the index arrays unchanged and
  * reports structural singularity by a nonzero return value.  Magnitudes enter through the log model (fresh monotone atoms for log).
- * args: n pattern symcols */
+ * args: n pattern symcols singular valmode seed
+ *   valmode 0: concrete entries are the generic values of hcommon.h; 1: concrete entries are +-2^k with k = small pseudo-random integers (seed) -- many exact
+ *   ties between sums of logarithms, which is what drives mc64's heap (delete-from-the-middle, decrease-key) paths; run with SLUSYM_LOG2=1 so that
+ *   log(2^k) = k exactly (base-2 logarithms; unit change invisible to mc64's linear arithmetic). With n > 6 optimality is checked through the returned
+ *   dual variables (feasible scaling with equality on the matching is an optimality certificate) instead of enumerating all matchings. */
 #include "hcommon.h"
 static int next_perm(int *p, int n) { int i = n - 2; while (i >= 0 && p[i] > p[i + 1]) i--; if (i < 0) return 0; int j = n - 1; while (p[j] < p[i]) j--; int t = p[i]; p[i] = p[j]; p[j] = t; for (int a = i + 1, b = n - 1; a < b; a++, b--) { t = p[a]; p[a] = p[b]; p[b] = t; } return 1; }
 int main(int argc, char **argv) {
   int n = (int)h_arg(argc, argv, 0, 2); h_pat_t pat = argc > 2 ? argv[2] : "0xf"; unsigned symcols = (unsigned)h_arg(argc, argv, 2, -1); int singular = (int)h_arg(argc, argv, 3, 0);
+  int valmode = (int)h_arg(argc, argv, 4, 0); long seed = h_arg(argc, argv, 5, 1);
   symmat_t S; symmat_build_cols(&S, n, n, pat, "a", symcols);
+  if (valmode == 1) { int_t k = 0; for (int j = 0; j < n; j++) for (int i = 0; i < n; i++) if (S.D.nz[i][j]) { if (!((symcols >> j) & 1)) { unsigned long x = (unsigned long)(seed * 2654435761UL + (unsigned long)(i * 131 + j * 31 + 7) * 40503UL); x ^= x >> 13; x *= 0x9E3779B1UL; x ^= x >> 16;
+          int e = (int)(x % 5) - 2; real_t v = 1; for (int t = 0; t < (e < 0 ? -e : e); t++) v = e < 0 ? v / 2 : v * 2; if ((x >> 8) & 1) v = -v;
+#if IS_COMPLEX
+          S.val[k] = e_make(v, 0);
+#else
+          S.val[k] = v;
+#endif
+          S.D.a[i][j] = S.val[k]; } k++; } }
   for (int_t k = 0; k < S.nnz; k++) slusym_assume_cmp(6, (double)e_abs1(S.val[k]), 0.0);        /* stored entries are nonzero (explicit zeros are outside this harness) */
   int_t cp0[NMAX + 1], ri0[NMAX * NMAX]; for (int j = 0; j <= n; j++) cp0[j] = S.colptr[j]; for (int_t k = 0; k < S.nnz; k++) ri0[k] = S.rowind[k];
   int perm[NMAX]; double u[NMAX], v[NMAX]; for (int i = 0; i < n; i++) { perm[i] = -5; u[i] = v[i] = 0; }
@@ -27,7 +40,7 @@ int main(int argc, char **argv) {
     int pres = 1; for (int j = 0; j < n; j++) if (!S.D.nz[iperm[j]][j]) pres = 0; slusym_assert_true(pres, "C17.matching.places-stored-nonzeros-on-the-diagonal");
     if (pres) { double best = 0; for (int j = 0; j < n; j++) best += lam[iperm[j]][j];
       int tau[NMAX]; for (int j = 0; j < n; j++) tau[j] = j;
-      do { int feas = 1; for (int j = 0; j < n; j++) if (!S.D.nz[tau[j]][j]) feas = 0; if (feas) { double s = 0; for (int j = 0; j < n; j++) s += lam[tau[j]][j]; slusym_assert_cmp(3, best, s, 1.0, "C17.matching.maximises-product"); } } while (next_perm(tau, n));
+      if (n <= 6) do { int feas = 1; for (int j = 0; j < n; j++) if (!S.D.nz[tau[j]][j]) feas = 0; if (feas) { double s = 0; for (int j = 0; j < n; j++) s += lam[tau[j]][j]; slusym_assert_cmp(3, best, s, 1.0, "C17.matching.maximises-product"); } } while (next_perm(tau, n));
       if (ret == 0) { for (int i = 0; i < n; i++) for (int j = 0; j < n; j++) if (S.D.nz[i][j]) { double t = u[i] + v[j] + lam[i][j]; if (iperm[j] == i) slusym_assert_zero(t, 1.0, "C17.scaling.diagonal-magnitude-one"); else slusym_assert_cmp(5, t, 0.0, 1.0, "C17.scaling.off-diagonal-at-most-one"); } }
     } }
   slusym_done(); return 0;
